@@ -17,6 +17,7 @@ import Homonim.Model.FS
 import Homonim.Model.Sched
 import Homonim.Model.Cli
 import Homonim.Model.FuseImage
+import Homonim.Model.PartialMask
 open Homonim
 
 def ints (ts : List String) : Option (List Int) := ts.mapM String.toInt?
@@ -304,7 +305,7 @@ def handleMerge (toks : List String) : String :=
   | _ => "bad-args"
 
 /-- fuseimg <model> <kh> <kw> <ups> <n0> <n1> Sr(o p n) Sc Rr Rc S <src vals> R <ref vals> → corrected source pixels -/
-def handleFuseImg (toks : List String) (srcGrid : Bool := false) : String :=
+def handleFuseImg (toks : List String) (srcGrid : Bool := false) (pmask : Bool := false) : String :=
   match toks with
   | ms :: kh :: kw :: us :: n0 :: n1 :: rest =>
     let ups : Option Resampling := match us with
@@ -321,6 +322,7 @@ def handleFuseImg (toks : List String) (srcGrid : Bool := false) : String :=
           if 0 ≤ r ∧ r < nr ∧ 0 ≤ cc ∧ cc < nc then arr.getD (r.toNat * nc.toNat + cc.toNat) none else none
         let p : ImagePair := ⟨sr, sc, rr, rc, mk sa c f, mk ra i l⟩
         " ".intercalate ((List.range c.toNat).flatMap fun (r : Nat) => (List.range f.toNat).map fun (cc : Nat) =>
+          if pmask then (if p.partialValid model kh kw n0 n1 r cc then "1" else "0") else
           showORat (if srcGrid then p.correctedSrcGrid model kh kw n0 n1 ups r cc else p.corrected model kh kw n0 n1 ups r cc))
       | _, _ => "bad-args"
     | _, _, _, _, _, _, _, _ => "bad-args"
@@ -411,6 +413,7 @@ def handle (toks : List String) : String :=
   | "fit" :: rest => handleFit rest
   | "fuseimg" :: rest => handleFuseImg rest
   | "fuseimgsrc" :: rest => handleFuseImg rest true
+  | "pmask" :: rest => handleFuseImg rest false true
   | "merge" :: rest => handleMerge rest
   | ["procres", sa, ra, req] =>
     match sa.toInt?, ra.toInt? with
